@@ -112,3 +112,60 @@ func VerifC25_dedicated() {
 	verifAssert(len(dw.log) == before, "nothing reaches the connection after release")
 	verifReach("done")
 }
+
+// VerifC25_concurrentRelease: the release function and Close of one dedicated client race
+// (a deferred cancel and a watchdog, say): the connection goes back to the pool exactly once, so
+// the next two dedicated clients never share a connection.
+func VerifC25_concurrentRelease() {
+	var wires []*verifWire
+	mkWire := func(ctx context.Context) wire {
+		w := &verifWire{id: len(wires) + 1}
+		w.doFn = func(cmd Completed) RedisResult {
+			w.log = append(w.log, cmd.Commands()[0]+" "+cmd.Commands()[len(cmd.Commands())-1])
+			return NewResult(strmsg(typeSimpleString, "OK"), nil)
+		}
+		w.doMultiFn = func(multi []Completed) []RedisResult {
+			rs := make([]RedisResult, len(multi))
+			for i := range multi {
+				rs[i] = NewResult(strmsg(typeSimpleString, "OK"), nil)
+			}
+			return rs
+		}
+		wires = append(wires, w)
+		return w
+	}
+	opt := &ClientOption{BlockingPoolSize: 2}
+	m := newMux("dst", opt, (*verifWire)(nil), &verifWire{id: -1, err: ErrClosing}, mkWire, mkWire)
+	client := newSingleClientWithConn(m, cmds.NewBuilder(cmds.NoSlot), false, false, newRetryer(defaultRetryDelayFn), false)
+	d, release := client.Dedicate()
+	verifAssert(d.Do(context.Background(), d.B().Set().Key("k").Value("first").Build()).Error() == nil, "the session works")
+	verifGo("release", func() { release() })
+	verifGo("close", func() {
+		if verifChoose(2) == 1 {
+			d.Close()
+		} else {
+			release()
+		}
+	})
+	verifJoin()
+	verifAssert(d.Do(context.Background(), d.B().Get().Key("k").Build()).Error() == ErrDedicatedClientRecycled, "a released dedicated client rejects Do")
+	d1, r1 := client.Dedicate()
+	d2, r2 := client.Dedicate()
+	verifAssert(d1.Do(context.Background(), d1.B().Set().Key("k").Value("one").Build()).Error() == nil, "the next session works")
+	verifAssert(d2.Do(context.Background(), d2.B().Set().Key("k").Value("two").Build()).Error() == nil, "the next session works")
+	for _, w := range wires {
+		one, two := false, false
+		for _, l := range w.log {
+			if l == "SET one" {
+				one = true
+			}
+			if l == "SET two" {
+				two = true
+			}
+		}
+		verifAssert(!(one && two), "two live dedicated clients never share a connection")
+	}
+	r1()
+	r2()
+	verifReach("released")
+}
